@@ -5,6 +5,7 @@ import VhostModel.SpecDrv.Send
 import VhostModel.SpecDrv.Locks
 import VhostModel.SpecDrv.Log
 import VhostModel.SpecDrv.Route
+import VhostModel.SpecDrv.Kern
 /-! Spec driver: evaluates the property's own rule on a scenario (and, for behavioural families, on
 the observation the implementation produced). Imports nothing generated from /repo. -/
 
@@ -18,6 +19,7 @@ def dispatch (line : String) : String :=
   | "locks" :: _ => SpecDrv.Locks.run toks
   | "route" :: _ => SpecDrv.Route.run toks
   | "log" :: _ => SpecDrv.Log.run toks
+  | "kern" :: _ => SpecDrv.Kern.run toks
   | _ => "bad-family"
 
 partial def loop (h : IO.FS.Stream) (out : IO.FS.Stream) : IO Unit := do
